@@ -11,6 +11,9 @@ import (
 	"encoding/json"
 	"errors"
 	"fmt"
+	"io"
+	"net/http"
+	"net/http/httptest"
 	"os"
 	"path/filepath"
 	"strings"
@@ -46,30 +49,69 @@ func (w *writer) Write(p []byte) (int, error) {
 }
 
 type job struct {
-	name   string
-	mk     func() templ.Component
-	failAt int
+	name    string
+	mk      func() templ.Component
+	failAt  int
+	handler bool // served through templ.Handler (buffered) into a ResponseWriter that yields on every call
+}
+
+// respWriter is a slow client: every WriteHeader / Write is a scheduling point.
+type respWriter struct {
+	h      http.Header
+	status int
+	body   bytes.Buffer
+}
+
+func (w *respWriter) Header() http.Header { return w.h }
+func (w *respWriter) WriteHeader(s int) {
+	vsched.Yield("writeheader")
+	if w.status == 0 {
+		w.status = s
+	}
+}
+func (w *respWriter) Write(p []byte) (int, error) {
+	vsched.Yield("respwrite")
+	if w.status == 0 {
+		w.status = 200
+	}
+	// a slow client takes the body in two pieces
+	half := len(p) / 2
+	w.body.Write(p[:half])
+	vsched.Yield("respwrite2")
+	w.body.Write(p[half:])
+	return len(p), nil
+}
+
+// failingAfter writes some bytes and then fails (the buffered handler must not let them out).
+func failingAfter(text string) templ.Component {
+	return templ.ComponentFunc(func(ctx context.Context, w io.Writer) error {
+		io.WriteString(w, text)
+		return errWriter
+	})
 }
 
 func jobs() map[string]job {
 	return map[string]job{
-		"pageA":   {"pageA", func() templ.Component { return Page("alice", []string{"a1", "a2"}) }, -1},
-		"pageB":   {"pageB", func() templ.Component { return Page("bob", []string{"b1"}) }, -1},
-		"bigA":    {"bigA", func() templ.Component { return Big("AAAA") }, -1},
-		"bigB":    {"bigB", func() templ.Component { return Big("BBBB") }, -1},
-		"smallA":  {"smallA", func() templ.Component { return Small("a") }, -1},
-		"smallB":  {"smallB", func() templ.Component { return Small("b") }, -1},
-		"spreadA": {"spreadA", func() templ.Component { return Spread("alice@example.com") }, -1},
-		"spreadB": {"spreadB", func() templ.Component { return Spread("bob") }, -1},
+		"pageA":       {"pageA", func() templ.Component { return Page("alice", []string{"a1", "a2"}) }, -1, false},
+		"pageB":       {"pageB", func() templ.Component { return Page("bob", []string{"b1"}) }, -1, false},
+		"bigA":        {"bigA", func() templ.Component { return Big("AAAA") }, -1, false},
+		"bigB":        {"bigB", func() templ.Component { return Big("BBBB") }, -1, false},
+		"smallA":      {"smallA", func() templ.Component { return Small("a") }, -1, false},
+		"smallB":      {"smallB", func() templ.Component { return Small("b") }, -1, false},
+		"handlerOK":   {name: "handlerOK", mk: func() templ.Component { return Big("AAAA") }, failAt: -1, handler: true},
+		"handlerFail": {name: "handlerFail", mk: func() templ.Component { return failingAfter(strings.Repeat("BBBB-", 60)) }, failAt: -1, handler: true},
+		"otherA":      {"otherA", func() templ.Component { return Other("from-the-second-file") }, -1, false},
+		"spreadA":     {"spreadA", func() templ.Component { return Spread("alice@example.com") }, -1, false},
+		"spreadB":     {"spreadB", func() templ.Component { return Spread("bob") }, -1, false},
 		// the same sanitisers with an accepted and a rejected value side by side
 		"kitchenA": {"kitchenA", func() templ.Component {
 			return Kitchen("red", "https://example.com/a", "serif", templ.Attributes{"data-x": "1", "data-y": "alice"})
-		}, -1},
+		}, -1, false},
 		"kitchenB": {"kitchenB", func() templ.Component {
 			return Kitchen("x}*{color:x", "data:text/html,<script>alert(1)</script>", "x}*{color:x, serif", templ.Attributes{"data-x": "2"})
-		}, -1},
-		"bigFail":  {"bigFail", func() templ.Component { return Big("FFFF") }, 40},
-		"pageFail": {"pageFail", func() templ.Component { return Page("carol", []string{"c1"}) }, 70},
+		}, -1, false},
+		"bigFail":  {"bigFail", func() templ.Component { return Big("FFFF") }, 40, false},
+		"pageFail": {"pageFail", func() templ.Component { return Page("carol", []string{"c1"}) }, 70, false},
 	}
 }
 
@@ -79,6 +121,14 @@ type outcome struct {
 }
 
 func renderOne(j job) outcome {
+	if j.mk == nil {
+		vlib.Fatal("unknown job %q", j.name)
+	}
+	if j.handler {
+		w := &respWriter{h: http.Header{}}
+		templ.Handler(j.mk(), templ.WithStatus(201)).ServeHTTP(w, httptest.NewRequest("GET", "/", nil))
+		return outcome{out: fmt.Sprintf("%d|%s", w.status, w.body.String())}
+	}
 	w := &writer{failAt: j.failAt}
 	err := j.mk().Render(context.Background(), w)
 	o := outcome{out: w.buf.String()}
@@ -163,7 +213,7 @@ func devModeReady() bool { return templruntime.VerifDevMode() }
 
 func raceMode(ref map[string]outcome) {
 	all := jobs()
-	names := []string{"pageA", "pageB", "bigA", "bigB", "smallA", "smallB", "bigFail", "pageFail", "spreadA", "spreadB", "kitchenA", "kitchenB", "kitchenB", "kitchenA"}
+	names := []string{"pageA", "pageB", "bigA", "bigB", "smallA", "smallB", "bigFail", "pageFail", "spreadA", "spreadB", "kitchenA", "kitchenB", "kitchenB", "kitchenA", "otherA", "smallA", "otherA", "handlerOK", "handlerFail"}
 	var wg sync.WaitGroup
 	var mu sync.Mutex
 	mismatch := ""
@@ -226,11 +276,13 @@ func main() {
 		{"2 goroutines, one writer fails midway, then renders again", [][]string{{"bigFail", "smallA"}, {"bigB", "smallB"}}},
 		{"2 goroutines, page render fails midway next to a page render", [][]string{{"pageFail"}, {"pageB", "smallB"}}},
 		{"2 goroutines rendering spread attributes", [][]string{{"spreadA"}, {"spreadB"}}},
+		{"2 requests through the buffered HTTP handler, one of them failing, slow clients", [][]string{{"handlerOK"}, {"handlerFail", "handlerOK"}}},
 	}
 	if dev {
 		scenarios = []scenario{
 			{"dev mode: 2 goroutines x 1 page render", [][]string{{"pageA"}, {"pageB"}}},
 			{"dev mode: 2 goroutines x 2 renders", [][]string{{"smallA", "bigA"}, {"bigB", "smallB"}}},
+			{"dev mode: components of two templ files side by side", [][]string{{"otherA", "smallA"}, {"smallB", "otherA"}}},
 		}
 	} else if run.Thorough() {
 		scenarios = append(scenarios, scenario{"3 goroutines x 2 renders", [][]string{{"smallA", "bigA"}, {"bigB", "smallB"}, {"pageA", "smallA"}}})
